@@ -650,12 +650,17 @@ class StaticResource(PrefixResource):
             # which could be a UNC path leading to NTLM credential theft
             raise HTTPNotFound()
         unresolved_path = self._directory.joinpath(filename)
+        # pathlib drops a trailing "/" and "." segment: "file.txt/" names a
+        # directory and must not be answered with the file.
+        must_be_dir = filename.rpartition("/")[2] in ("", ".", "..")
         loop = asyncio.get_running_loop()
         return await loop.run_in_executor(
-            None, self._resolve_path_to_response, unresolved_path
+            None, self._resolve_path_to_response, unresolved_path, must_be_dir
         )
 
-    def _resolve_path_to_response(self, unresolved_path: Path) -> StreamResponse:
+    def _resolve_path_to_response(
+        self, unresolved_path: Path, must_be_dir: bool = False
+    ) -> StreamResponse:
         """Take the unresolved path and query the file system to form a response."""
         # Check for access outside the root directory. When the sandbox is
         # broken, URI cannot traverse out, but symlinks can. Otherwise, no
@@ -697,6 +702,8 @@ class StaticResource(PrefixResource):
                     )
                 else:
                     raise HTTPForbidden()
+            elif must_be_dir:
+                raise HTTPNotFound()
         except PermissionError as error:
             raise HTTPForbidden() from error
         except OSError as error:
